@@ -68,7 +68,7 @@ def featureSuccs (K : Consts) (ts : TypeSystem) (o : Opts) (hp : Heap) (allFs : 
   else if isPrimitive K ts f.range then .ok ([], 0)
   else
     match slot hp a f.name with
-    | none => .error .attributeError          -- instance lacks the slot (stale class)
+    | none => .ok ([], 0)                     -- instance created before the feature was added: `getattr(fs, name, None)`
     | some .none => .ok ([], 0)
     | some v =>
       if !o.includeInlinable && !(f.multi.getD false) && (isArray K f.range || isList K f.range) then
@@ -196,7 +196,7 @@ def featErrors (ts : TypeSystem) (hp : Heap) (a : Nat) (owner : Option Int) :
   | f :: fs =>
     if f.range == FS_ARRAY then
       match slot hp a f.name with
-      | none => .error .attributeError        -- the instance lacks the slot
+      | none => featErrors ts hp a owner fs   -- instance created before the feature was added: `getattr(fs, name, None)`
       | some (.ref arr) =>
         match slot hp arr "elements" with
         | some (.refs l) =>
